@@ -100,6 +100,24 @@ func c12Body(c *c12Case, results *[2]string) func() {
 			func() string { return parseObsStr(impl.ParseFile(impl.NewScriptFile(c.B, c.Script))) })
 	case "interpret2":
 		return par(func() string { return impl.Interpret(c.A).Summary() }, func() string { return impl.Interpret(c.B).Summary() })
+	case "exec2opts":
+		// one shared Prog, every caller passes its own logger / output / options to Execute
+		return func() {
+			// the Prog's own writers are shared by the callers, hence locked
+			p, err := bcl.Parse([]byte(c.A), "input", bcl.OptOutput(&lockedBuf{}), bcl.OptLogger(&lockedBuf{}))
+			if err != nil {
+				results[0], results[1] = "rejected", "rejected"
+				return
+			}
+			run := func(opts ...bcl.Option) func() string {
+				return func() string {
+					var out, log bytes.Buffer
+					bl, bi, err := bcl.Execute(p, append(opts, bcl.OptOutput(&out), bcl.OptLogger(&log))...)
+					return impl.Ran{Blocks: bl, Binding: bi, Err: err, Out: out.String(), Log: log.String()}.Summary()
+				}
+			}
+			par(run(), run(bcl.OptStats(true)))()
+		}
 	case "exec2", "execdump":
 		return func() {
 			out := &lockedBuf{}
@@ -310,7 +328,7 @@ func init() {
 		ID:    "C12",
 		Level: "model_checking",
 		Rule: "controlled-scheduler exploration with a happens-before race detector: the package is rewritten so that every access to a package-level variable, to an addressable field of a struct type of package bcl and to a captured local is logged; vector clocks advance only on the program's own synchronisation (channel send->receive, close->receive, go->start, unlock->lock, WaitGroup), not on scheduler hand-offs. " +
-			"Harness bodies: (a) the ParseFile pipeline on multi-chunk inputs whose first chunk has syntax errors while later chunks hold newlines (parser formats diagnostics while the lexer appends line ends), valid multi-chunk input, early lexical failure; (b) two concurrent callers: Parse||Parse, ParseFile||ParseFile, Interpret||Interpret on different inputs, Unmarshal||Unmarshal, Execute||Execute, Execute||Dump and Dump||Dump on one shared Prog with a locked output writer, LoadProg+Execute pairs, Bind||Bind. " +
+			"Harness bodies: (a) the ParseFile pipeline on multi-chunk inputs whose first chunk has syntax errors while later chunks hold newlines (parser formats diagnostics while the lexer appends line ends), valid multi-chunk input, early lexical failure; (b) two concurrent callers: Parse||Parse, ParseFile||ParseFile, Interpret||Interpret on different inputs, Unmarshal||Unmarshal, Execute||Execute (also with per-call loggers/outputs/options), Execute||Dump and Dump||Dump on one shared Prog with a locked output writer, LoadProg+Execute pairs, Bind||Bind. " +
 			"ALL schedules with <=B preemptions (quick 1, thorough 2; Execute pairs B+1) are executed for the pipeline and the Execute/Dump/Bind pairs; the Parse/ParseFile/Interpret pairs (7-9 goroutines) use delay bounding: a deterministic scheduler plus every placement of <=B+1 deviations; on each: no unordered conflicting access pair, no deadlock/panic, and each call's result equals its sequential result.",
 		Subs:           []*fw.Sub{subC12},
 		BudgetQuick:    100,
@@ -329,6 +347,9 @@ func init() {
 				"var a = 1\nprint a\n\nprint a + 1\n",
 				"print @\nprint 1\nprint 2\n",
 				"def b {\n x = )\n}\n\nprint 1\n",
+				// a block that closes a few tokens before a lexical failure
+				"def b {\n x = 1\n}\nprint 1 @\nprint 2\n",
+				"def a { def b { x = 1 } }\n\n\"open\n",
 			}
 			for _, in := range pipeInputs {
 				n := len(in)
@@ -353,6 +374,7 @@ func init() {
 			for _, src := range []string{"var a = 1\nprint a + 1\ndef b \"n\" { x = a; print x }\nbind b -> struct", "print 1\nprint 1/0", "def a {x=1} def a {x=2}\nbind a:all -> slice\nbind a:last -> struct"} {
 				c.Do(subC12, &c12Case{Scenario: "exec2", A: src, Bound: bound + 1})
 				c.Do(subC12, &c12Case{Scenario: "execdump", A: src, Bound: bound + 1})
+				c.Do(subC12, &c12Case{Scenario: "exec2opts", A: src, Bound: bound + 1})
 			}
 			c.Do(subC12, &c12Case{Scenario: "unmarshal2", A: "def c11target \"nm\" { x = 3 }\nbind c11target -> struct", B: "def c11target { x = 4; y = 5 }\nprint 1\nbind c11target -> struct", Bound: bound + 1, Delay: true})
 			c.Do(subC12, &c12Case{Scenario: "load2", A: "var a = 1\nprint a + 1\ndef b \"n\" { x = a }\nbind b -> struct", Bound: bound + 1})
@@ -397,6 +419,7 @@ func RacePass() int {
 		{Scenario: "interpret2", A: strings.Repeat("print 1+2\n", 300), B: strings.Repeat("def b { x = 1 }\n", 200)},
 		{Scenario: "exec2", A: strings.Repeat("print 1\n", 200) + "def b \"n\" { x = 1 }\nbind b -> struct"},
 		{Scenario: "execdump", A: strings.Repeat("print 1\n", 200) + "def b \"n\" { x = 1 }\nbind b -> struct"},
+		{Scenario: "exec2opts", A: strings.Repeat("print 1\n", 200) + "def b \"n\" { x = 1 }\nbind b -> struct\nbind b -> struct"},
 		{Scenario: "bind2", A: "def c11target \"nm\" { x = 3 }\nbind c11target -> struct"},
 		{Scenario: "dump2", A: strings.Repeat("print \""+strings.Repeat("s", 300)+"\"\n", 50) + "def b \"n\" { x = 1 }"},
 		{Scenario: "load2", A: strings.Repeat("print 1\n", 200) + "def b \"n\" { x = 1 }\nbind b -> struct"},
